@@ -59,6 +59,81 @@ func stubWriteFile(name string, data []byte, perm os.FileMode) error {
 	vFS[name] = data
 	return nil
 }
+
+// open files: each Write is one durable effect; creating / truncating is one as well
+type vOpen struct {
+	path   string
+	off    int
+	append bool
+}
+
+var vOpenTab map[*os.File]*vOpen
+
+func stubOpenFile(name string, flag int, perm os.FileMode) (*os.File, error) {
+	if vFS == nil {
+		vFS = map[string][]byte{}
+	}
+	_, ok := vFS[name]
+	if !ok && flag&os.O_CREATE == 0 {
+		return nil, os.ErrNotExist
+	}
+	if ok && flag&(os.O_CREATE|os.O_EXCL) == os.O_CREATE|os.O_EXCL {
+		return nil, os.ErrExist
+	}
+	if !ok || flag&os.O_TRUNC != 0 {
+		vEffect()
+		vFS[name] = []byte{}
+	}
+	f := new(os.File)
+	if vOpenTab == nil {
+		vOpenTab = map[*os.File]*vOpen{}
+	}
+	vOpenTab[f] = &vOpen{path: name, append: flag&os.O_APPEND != 0}
+	return f, nil
+}
+func stubCreate(name string) (*os.File, error) {
+	return stubOpenFile(name, os.O_RDWR|os.O_CREATE|os.O_TRUNC, 0666)
+}
+func stubFileWrite(f *os.File, b []byte) (int, error) {
+	o := vOpenTab[f]
+	if o == nil {
+		return 0, os.ErrClosed
+	}
+	old, ok := vFS[o.path]
+	if !ok {
+		return len(b), nil
+	}
+	if o.append {
+		o.off = len(old)
+	}
+	data := append([]byte(nil), old...)
+	for len(data) < o.off+len(b) {
+		data = append(data, 0)
+	}
+	copy(data[o.off:], b)
+	o.off += len(b)
+	vEffect()
+	vFS[o.path] = data
+	return len(b), nil
+}
+func stubFileSync(f *os.File) error  { return nil }
+func stubFileClose(f *os.File) error { return nil }
+func stubFileTruncate(f *os.File, size int64) error {
+	o := vOpenTab[f]
+	if o == nil {
+		return os.ErrClosed
+	}
+	if old, ok := vFS[o.path]; ok {
+		data := append([]byte(nil), old...)
+		for int64(len(data)) < size {
+			data = append(data, 0)
+		}
+		vEffect()
+		vFS[o.path] = data[:size]
+	}
+	return nil
+}
+
 func stubReadFile(name string) ([]byte, error) {
 	if d, ok := vFS[name]; ok {
 		return d, nil
@@ -161,6 +236,12 @@ func c08Stubs() map[string]interface{} {
 		"os.MkdirAll":                            stubMkdirAll,
 		"os.WriteFile":                           stubWriteFile,
 		"os.ReadFile":                            stubReadFile,
+		"os.OpenFile":                            stubOpenFile,
+		"os.Create":                              stubCreate,
+		"(*os.File).Write":                       stubFileWrite,
+		"(*os.File).Sync":                        stubFileSync,
+		"(*os.File).Close":                       stubFileClose,
+		"(*os.File).Truncate":                    stubFileTruncate,
 		"os.Rename":                              stubRename,
 		"os.RemoveAll":                           stubRemoveAll,
 		"os.Remove":                              stubRemove,
@@ -411,17 +492,32 @@ func H_C08_crash() {
 	vCrashed = false
 	s2 := c08Start("/data")
 	if inflight {
-		vAssert(c08Matches(s2, before) || c08Matches(s2, after), "in-flight-request-wholly-present-or-wholly-absent")
+		mb, ma := c08Matches(s2, before), c08Matches(s2, after)
+		vAssert(mb || ma, "in-flight-request-wholly-present-or-wholly-absent")
 		vReach("c08-crash")
+		if mb {
+			m = before
+		} else if ma {
+			m = after
+		} else {
+			return
+		}
 	} else {
 		vAssert(c08Matches(s2, m), "restart-serves-exactly-the-acknowledged-state")
 		vReach("c08-clean")
 	}
-	// a second restart changes nothing
+	// the recovered server keeps serving: one more acknowledged request, then another restart
+	// (whatever the crash left behind - temporary files, half-written directories - must not
+	// leak into later acknowledged state)
+	run, next, _ := c08Op(s2, m, 9)
+	run()
+	m = next
+	vAssert(c08Matches(s2, m), "after-recovery:request-takes-effect")
 	s3 := c08Start("/data")
-	if !inflight {
-		vAssert(c08Matches(s3, m), "repeated-restart-stable")
-	}
+	vAssert(c08Matches(s3, m), "after-recovery:restart-serves-exactly-the-acknowledged-state")
+	// a further restart changes nothing
+	s4 := c08Start("/data")
+	vAssert(c08Matches(s4, m), "repeated-restart-stable")
 }
 
 // H_C08_reopen: requests served by a server that was started on existing data: they take effect
